@@ -253,6 +253,11 @@ def _discharge(ob: Obligation, tier: str):
         ob.backend = f"z3-5.1.0(api) (second solvers: timeout) [hypotheses sliced to {len(pc2)}/{len(ob.pc)}, depth {depth}]"
         return
     ob.status = "unknown"
+    dd = os.environ.get("PYVC_DUMP_UNKNOWN")
+    if dd:      # debugging aid: keep the query of an undecided obligation
+        os.makedirs(dd, exist_ok=True)
+        import re as _re
+        open(os.path.join(dd, _re.sub(r"[^\w.:-]", "_", f"{ob.name}@{getattr(ob, 'path', '')}")[-150:] + ".smt2", "w").write(smt2)
 
 
 def _symbols(f, cache={}):
